@@ -66,12 +66,18 @@ def run(ctx):
         runs.append(dict(mp=mp, groups=True, n=5 if q else 8, hmax=2 if q else 3, permmax=2 if q else 3, maxcases=40 if q else 500))
     runs.append(dict(mp=0, groups=True, n=5 if q else 7, hmax=2 if q else 3, permmax=2, maxcases=40 if q else 400, eventloop=True))
     runs.append(dict(mp=0, groups=False, n=4 if q else 6, hmax=2 if q else 3, permmax=2, maxcases=30 if q else 300, eventloop=True))
+    # slow FidDestroy callbacks (a clunk blocked in the implementation) while other tags must complete
+    runs.append(dict(mp=0, groups=False, n=4 if q else 6, hmax=2, permmax=2, maxcases=60 if q else 600, cbhold=True))
     for i, rr in enumerate(runs):
         nt = rr["n"] + 3
-        ch = srvfam.consts(ctx, NReq=rr["n"] + 2, Tags=set(range(1, nt + 1)), Fids={1, 2}, Kinds={"Stat"}, SharedTags=rr["groups"],
-                           Late=False, InitFids={1}, Maxpend=rr["mp"])
+        cb = bool(rr.get("cbhold"))
+        # in the runs without tag groups the request under model tag 2 carries the tag 0xFFFF (NOTAG) on the wire
+        ch = srvfam.consts(ctx, NReq=rr["n"] + 2, Tags=set(range(1, nt + 1)), Fids={1, 2, 3} if cb else {1, 2},
+                           Kinds={"Stat", "Clunk"} if cb else {"Stat"}, SharedTags=rr["groups"],
+                           Late=False, InitFids={1, 2, 3} if cb else {1}, Maxpend=rr["mp"], NoTag=0 if rr["groups"] else 2)
         hc = {"n": rr["n"], "m": 2, "hmax": rr["hmax"], "groups": rr["groups"], "close": False, "partial": False,
-              "kinds": ["Stat"], "maxcases": rr["maxcases"], "permmax": rr["permmax"], "unknownfids": True, "eventloop": bool(rr.get("eventloop"))}
+              "kinds": ["Stat", "Clunk"] if cb else ["Stat"], "maxcases": rr["maxcases"], "permmax": rr["permmax"], "unknownfids": not cb,
+              "eventloop": bool(rr.get("eventloop")), "cbhold": cb}
         tag = "held%d" % i
         hrep, tp, ep, bp = held_run(ctx, ch, hc, tag, 500000 + 10000 * i)
         rj, tl = srvfam.run_trace_validation(ctx, tp, ch, name="Srv9PTrace:" + tag)
